@@ -17,6 +17,7 @@ func init() {
 	vrt.Register("C17_block_helper", BlockHelper)
 	vrt.Register("C17_nested_partials", NestedPartials)
 	vrt.Register("C17_shared_data_map", SharedDataMap)
+	vrt.Register("C17_content_of_in_scopes", ContentOfInScopes)
 }
 
 // bodies of partials / blocks; they read v (data), c (caller's variable) and xs
@@ -291,5 +292,42 @@ func SharedDataMap() {
 	vrt.Note("got", got)
 	vrt.Assert(err == nil, "partials sharing a data map render")
 	vrt.Assert(got == want, "every partial call with the same data renders the same way: the data map is not consumed")
+	vrt.Cover("done")
+}
+
+// contentOf / a block helper used inside a loop or a function body: it emits what
+// the block renders to, and the rest of the enclosing body renders as if it were inline
+func ContentOfInScopes() {
+	e := mkEnv()
+	body := bodies[1+vrt.Choice(2)]
+	ctx := e.ctx(false, nil)
+	ctx.Set("own", func(help plush.HelperContext) (template.HTML, error) {
+		s, err := help.BlockWith(help.New())
+		return template.HTML(s), err
+	})
+	w, werr := inline(body, e)
+	vrt.Assume(werr == nil)
+	def := "<% contentFor(\"c1\") { %>" + body + "<% } %>"
+	cOut, _ := plush.Render("<%= c %>", e.ctx(false, nil))
+	var in, want string
+	switch vrt.Choice(4) {
+	case 0:
+		in = def + "<%= for (i, x) in xs { %>[<%= contentOf(\"c1\", {v: V}) %>|<%= i %>]<% } %>"
+		want = "[" + w + "|0][" + w + "|1]"
+	case 1:
+		in = def + "<% let f = fn(p) { %>[<%= contentOf(\"c1\", {v: V}) %>|<%= p %>]<% } %><%= f(c) %>"
+		want = "[" + w + "|" + cOut + "]"
+	case 2:
+		in = def + "<%= for (i, x) in xs { %><% let loc = i %>[<%= contentOf(\"c1\", {v: V}) %>|<%= loc %>]<% } %>"
+		want = "[" + w + "|0][" + w + "|1]"
+	default:
+		in = "<%= for (i, x) in xs { %>[<%= own() { %><%= i %><% } %>|<%= i %>]<% } %>"
+		want = "[0|0][1|1]"
+	}
+	vrt.Note("input", in)
+	got, err := plush.Render(in, ctx)
+	vrt.Note("got", got)
+	vrt.Assert(err == nil, "contentOf / a block helper inside a loop or function renders")
+	vrt.Assert(got == want, "the composed form equals the inline form also for what follows it in the same scope")
 	vrt.Cover("done")
 }
